@@ -53,6 +53,15 @@ def run(ck, prog, ctx):
         if b.kind not in ("Fn", "AssocFn") or b.id in leaf:
             continue
         sites = [(bi, t, leaf[t.callee.res]) for bi, t in b.calls() if t.callee.res in leaf]
+        # a write performed inside a closure handed to a combinator (`lookup.map(|child| child.add_parent(..))`): the combinator
+        # call is the site; whether the closure runs depends on the combinator, so such a site makes the pairing verdict undecided
+        for bi, t in b.calls():
+            for a_ in t.args[1:] if len(t.args) > 1 else []:
+                cb_ = prog.bodies.get(pv.closure_of_operand(b, a_) or "")
+                if cb_ is not None and cb_.kind == "Closure":
+                    for _, ct_ in cb_.calls():
+                        if ct_.callee.res in leaf:
+                            sites.append((bi, t, leaf[ct_.callee.res] | {"<closure>"}))
         if sites:
             writers.append((b, sites))
     ck.floor("PAIR", "edge writers", len(writers), 2)
@@ -101,6 +110,10 @@ def run(ck, prog, ctx):
                     bad.append((abi, at_))
             return bad
 
+        via_closure = any("<closure>" in f for _, _, f in sites)
+        if wp and wc and via_closure:
+            ck.undecided("PAIR", "edge/%s" % b.short, "%s writes one direction of the edge inside a closure handed to a combinator: whether both directions are written on every exit is not decided" % b.short, where=b.where())
+            continue
         if not wp or not wc:
             ck.violation("PAIR", "edge/%s" % b.short, "%s writes only the %s side of an is_a edge" % (b.short, "parents" if wp else "children"), where=b.where())
             continue
